@@ -410,7 +410,13 @@ def check_step(world, step, top, idx, first_req):
             out.append({"prop": "C04", "step": idx, "kind": "bytes written while latched / not connected",
                         "method": name, "data": [w["data"].decode("latin-1") for w in writes],
                         "state": "not connected" if top["port_none"] else "latched"})
-        if top["result"] != REQUESTS[name] or type(top["result"]) is not type(REQUESTS[name]):
+        if name in VALUE_METHODS:
+            wrong = top["result"] != REQUESTS[name] or type(top["result"]) is not type(REQUESTS[name])
+        else:
+            # methods without a success value: "nothing" (None) or an explicit False are failure values;
+            # anything truthy would claim success
+            wrong = not (top["result"] is None or top["result"] is False)
+        if wrong:
             out.append({"prop": "C04", "step": idx, "kind": "wrong failure value while latched / not connected",
                         "method": name, "returned": repr(top["result"]), "failure_value": repr(REQUESTS[name]),
                         "state": "not connected" if top["port_none"] else "latched"})
@@ -482,7 +488,15 @@ def check_step(world, step, top, idx, first_req):
         raised = [e for e in io if "raised" in e]
         if name == "query_statusbyte":
             reads = [e for e in io if e["kind"] == "read"]
-            line = reads[0]["data"].decode("latin-1").strip() if reads and "data" in reads[0] else ""
+            first = reads[0]["data"].decode("latin-1").strip() if reads and "data" in reads[0] else ""
+            # the statement's 25-empty-reads clause is anchored in command()/query(); this method may give
+            # up after one empty read (as the unchanged code does) or wait like query(): the line it
+            # actually judged is the first non-empty one among the reads it made
+            line = next((e["data"].decode("latin-1").strip() for e in reads[:26]
+                         if "data" in e and e["data"].decode("latin-1").strip()), "")
+            gave_up_early = first == "" and top["result"] is None and err_now is not None
+            if gave_up_early:
+                line = ""
             good = (not raised) and line.startswith("QG") and "Err:" not in line
             value = None
             if good:
